@@ -6,6 +6,7 @@ import (
 	"io"
 	logslog "log/slog"
 	"os"
+	"slices"
 	"strconv"
 	"strings"
 	"sync"
@@ -955,7 +956,8 @@ func (s *Entry) Errorf(format string, a ...interface{}) error {
 //
 
 func (s *Entry) WriteThru(ctx context.Context, lvl Level, timestamp time.Time, stackFrame uintptr, msg string, attrs Attrs) {
-	s.print(ctx, lvl, timestamp, stackFrame, msg, attrs)
+	// the encoder sorts the attributes in place; don't touch the caller's slice
+	s.print(ctx, lvl, timestamp, stackFrame, msg, slices.Clone(attrs))
 }
 
 func (s *Entry) WriteInternal(ctx context.Context, lvl Level, stackFrame uintptr, buf []byte) (n int, err error) {
